@@ -13,16 +13,26 @@ MAX_BYTES = 1 << 20      # worlds whose bindings are larger are skipped (counted
 ENV = {"RUST_BACKTRACE": "0", "RUST_LIB_BACKTRACE": "0", "RUST_LOG": "off"}
 
 
+def cli_target_dir():
+    """One cargo target dir PER source tree.  Sharing one between /repo and a scratch worktree is unsound:
+    cargo's unit hashes and dep-info paths are relative to the workspace root, so the two trees collide on
+    the same artifacts and an mtime-fresh artifact of the OTHER tree would be reused."""
+    if os.path.realpath(vf.REPO) == "/repo":
+        return CLI_TARGET
+    return CLI_TARGET + "-" + hashlib.sha256(os.path.realpath(vf.REPO).encode()).hexdigest()[:10]
+
+
 def build_cli(workdir):
-    """cargo build of the working tree's CLI (under a lock), then hard-link the binary into workdir so a
-    concurrent build for another tree cannot swap it under us.  Returns (ok, exe, log)."""
+    """cargo build of the working tree's CLI (under a lock) into that tree's own target dir, then hard-link
+    the binary into workdir.  Returns (ok, exe, log).  (Scratch trees: remove build/cli-target-* afterwards.)"""
     os.makedirs(workdir, exist_ok=True)
-    with vf.Lock("cargo-cli"):
+    tdir = cli_target_dir()
+    with vf.Lock("cargo-cli-" + os.path.basename(tdir)):
         rc, out = vf.sh(["cargo", "build", "--offline", "--manifest-path", os.path.join(vf.REPO, "Cargo.toml"),
-                         "--target-dir", CLI_TARGET, "--bin", "wit-bindgen"], timeout=3000)
+                         "--target-dir", tdir, "--bin", "wit-bindgen"], timeout=3000)
         if rc != 0:
             return False, None, out
-        src = os.path.join(CLI_TARGET, "debug", "wit-bindgen")
+        src = os.path.join(tdir, "debug", "wit-bindgen")
         exe = os.path.join(workdir, "wit-bindgen")
         if os.path.exists(exe):
             os.unlink(exe)
